@@ -59,6 +59,14 @@ pub enum Op {
     Stop,
     Halt,
     Join,
+    /// join, then join again (the value is handed out once)
+    JoinTwice,
+    /// OwningAddr::consume
+    Consume,
+    /// OwningAddr::consume_sync, then await the returned future
+    ConsumeSync,
+    /// create the join future, drop the owning address (a clone of the plain address is kept), stop, await the future
+    LazyJoinThenDrop,
     Await,
     Restart,
     /// register an interval (kind 0) / interval_with (kind 1) that stops the actor after k ticks, then await the end
@@ -233,14 +241,19 @@ impl StreamHandler<i64> for Counter {
 // ---------------------------------------------------------------------------------------------
 // running
 
-const WATCHDOG: Duration = Duration::from_secs(5);
+const WATCHDOG: Duration = Duration::from_secs(2);
 
-/// await with a watchdog; None = timed out
+/// await with a watchdog; None = timed out.  A panic inside the awaited operation (e.g. a join
+/// handle polled after completion) is caught and re-raised as the `Panicked` marker error.
 async fn guarded<T>(f: impl Future<Output = T>) -> Option<T> {
     futures::select! {
         r = f.fuse() => Some(r),
         _ = hannibal::runtime::sleep(WATCHDOG).fuse() => None,
     }
+}
+
+async fn no_panic<T>(f: impl Future<Output = T>) -> Result<T, ()> {
+    std::panic::AssertUnwindSafe(f).catch_unwind().await.map_err(|_| ())
 }
 
 fn show<T: std::fmt::Debug, E: std::fmt::Debug>(r: Result<T, E>) -> String {
@@ -437,13 +450,90 @@ async fn run_program(p: &Program) -> Record {
                     ended = true;
                     // join only resolves once the actor ends: ask it to stop first
                     let _ = o.to_addr().stop();
-                    match guarded(o.join()).await {
-                        Some(v) => format!("{:?}", v.map(|c| c.sum)),
+                    match guarded(no_panic(o.join())).await {
+                        Some(Ok(v)) => format!("{:?}", v.map(|c| c.sum)),
+                        Some(Err(())) => "panic".into(),
                         None => {
                             wd = true;
                             "watchdog".into()
                         }
                     }
+                }
+                None => "skip".into(),
+            },
+            Op::JoinTwice => match live.owning.as_mut() {
+                Some(o) => {
+                    ended = true;
+                    let _ = o.to_addr().stop();
+                    let mut outs = vec![];
+                    for _ in 0..2 {
+                        let f = o.join();
+                        outs.push(match guarded(no_panic(f)).await {
+                            Some(Ok(v)) => format!("{:?}", v.map(|c| c.sum)),
+                            Some(Err(())) => "panic".to_string(),
+                            None => {
+                                wd = true;
+                                "watchdog".into()
+                            }
+                        });
+                    }
+                    outs.join("/")
+                }
+                None => "skip".into(),
+            },
+            Op::Consume => match live.owning.take() {
+                Some(o) => {
+                    ended = true;
+                    match guarded(no_panic(o.consume())).await {
+                        Some(Ok(r)) => match r {
+                            Ok(c) => format!("Ok({})", c.sum),
+                            Err(_) => "Err".into(),
+                        },
+                        Some(Err(())) => "panic".into(),
+                        None => {
+                            wd = true;
+                            "watchdog".into()
+                        }
+                    }
+                }
+                None => "skip".into(),
+            },
+            Op::ConsumeSync => match live.owning.take() {
+                Some(o) => {
+                    ended = true;
+                    match o.consume_sync() {
+                        Ok(f) => match guarded(no_panic(f)).await {
+                            Some(Ok(v)) => format!("{:?}", v.map(|c| c.sum)),
+                            Some(Err(())) => "panic".into(),
+                            None => {
+                                wd = true;
+                                "watchdog".into()
+                            }
+                        },
+                        Err(_) => "Err".into(),
+                    }
+                }
+                None => "skip".into(),
+            },
+            Op::LazyJoinThenDrop => match live.owning.take() {
+                Some(mut o) => {
+                    ended = true;
+                    let f = o.join();
+                    let mut a = o.to_addr();
+                    drop(o);
+                    hannibal::runtime::sleep(Duration::from_millis(2)).await;
+                    let alive = g!(a.call(Get));
+                    let _ = a.stop();
+                    let j = match guarded(no_panic(f)).await {
+                        Some(Ok(v)) => format!("{:?}", v.map(|c| c.sum)),
+                        Some(Err(())) => "panic".into(),
+                        None => {
+                            wd = true;
+                            "watchdog".into()
+                        }
+                    };
+                    live.addrs.push(a);
+                    format!("{alive}/{j}")
                 }
                 None => "skip".into(),
             },
@@ -513,6 +603,10 @@ async fn run_program(p: &Program) -> Record {
         };
         rec.watchdog |= wd;
         rec.ops.push(out);
+        if wd {
+            // the program is stuck on this runtime: do not pile further watchdog waits on top
+            ended = true;
+        }
     }
     // tear down: stop, drop everything, let the runtime finish
     if let Some(a) = any_addr(&live) {
@@ -572,6 +666,10 @@ mod generate {
             1 => Just(Op::Stop),
             1 => Just(Op::Halt),
             2 => Just(Op::Join),
+            2 => Just(Op::JoinTwice),
+            1 => Just(Op::Consume),
+            2 => Just(Op::ConsumeSync),
+            2 => Just(Op::LazyJoinThenDrop),
             1 => Just(Op::Await),
             2 => Just(Op::Restart),
             2 => (any::<bool>(), 1u8..4, 1u8..4).prop_map(|(with, k, period_ms)| Op::TicksThenStop { with, k, period_ms }),
@@ -634,6 +732,11 @@ mod check {
         for (i, r) in recs.iter().enumerate() {
             if r.watchdog {
                 return Some(format!("C18/watchdog/{}", RTS[i]));
+            }
+        }
+        for (i, r) in recs.iter().enumerate() {
+            if r.ops.iter().any(|o| o.contains("panic")) {
+                return Some(format!("C18/panic/{}", RTS[i]));
             }
         }
         for (i, r) in recs.iter().enumerate() {
